@@ -557,7 +557,11 @@ def field_values(f, r, total_len):
             return instr_values(f.val, f.ctx, r)
         return [enc_u32(x) for x in (0, 0xFFFFFFFF, f.val ^ 1, f.val ^ 0x80000000, r.getrandbits(32))]
     if f.enc == "real":
-        return [nanbox_values(r) for _ in range(8)]
+        out = []
+        for t in range(16):       # every type tag with a pointer-looking, a small and a zero payload
+            for payload in (0x602000000010, 0x41414141, 0):
+                out.append(struct.pack("<Q", (((0x1FFF0 | t) << 47) | payload) & 0xFFFFFFFFFFFFFFFF))
+        return out + [nanbox_values(r) for _ in range(8)]
     if f.enc == "lead":
         return [bytes([b]) for b in LEAD_BYTES] + [bytes([199]), bytes([233]), bytes([0]), bytes([0x80])]
     if f.enc == "byte":
@@ -582,13 +586,24 @@ HOT1 = {"fiber.flags", "fiber.frame", "fiber.stackstart", "fiber.stacktop", "fib
         "peg.num_constants", "chan.is_threaded", "chan.limit", "chan.count"}
 HOT2 = {"def.flags", "def.slotcount", "def.arity", "def.min_arity", "def.max_arity", "def.constants_length",
         "def.bytecode_length", "def.environments_length", "def.defs_length", "def.symbolmap_length", "def.environment",
-        "ref.index", "int64.value", "chan.closed", "rng.counter", "array.len", "tuple.len", "table.count", "struct.count"}
+        "ref.index", "int64.value", "chan.closed", "rng.counter", "array.len", "tuple.len", "table.count", "struct.count",
+        "peg.const", "peg.seqlen", "peg.litlen"}
+
+
+def hot_instr(f):
+    """bytecode words whose operands point somewhere: jumps, constant / funcdef / environment references, and the
+    last instruction of a function (the verifier's fall-off-the-end rule)"""
+    if f.role != "def.bytecode":
+        return False
+    op = f.val & 0x7F
+    typ = INSTR_TYPES[op] if op < len(INSTR_TYPES) else "0"
+    return typ in ("L", "SL", "SD", "SC", "SES") or f.ctx.get("pc") == f.ctx.get("blen", 0) - 1
 
 
 def field_weight(f):
     if f.role in HOT1:
         return 20.0
-    if f.role in HOT2:
+    if f.role in HOT2 or hot_instr(f) or f.enc == "real":
         return 6.0
     if f.role in ROLE_WEIGHT:
         return ROLE_WEIGHT[f.role]
@@ -600,7 +615,7 @@ def field_weight(f):
 
 
 def is_hot(f):
-    return f.role in HOT1 or f.role in HOT2
+    return f.role in HOT1 or f.role in HOT2 or hot_instr(f) or f.enc == "real"
 
 
 def sweep_values(f, total_len):
